@@ -44,7 +44,10 @@ import (
 	"github.com/bitcoin-sv/block-headers-service/config"
 	"github.com/bitcoin-sv/block-headers-service/domains"
 	"github.com/bitcoin-sv/block-headers-service/internal/chaincfg/chainhash"
+	"github.com/bitcoin-sv/block-headers-service/metrics"
 	"github.com/bitcoin-sv/block-headers-service/service"
+	"github.com/bitcoin-sv/block-headers-service/transports/http/endpoints"
+	httpserver "github.com/bitcoin-sv/block-headers-service/transports/http/server"
 	"github.com/gin-gonic/gin"
 )
 
@@ -232,7 +235,17 @@ func c16Shapes() []c16Shape {
 	}
 }
 
+// c16SplitStore: "<shape>" or "<shape>+m" (the same store served by an engine wired as cmd/main.go does with
+// metrics.enabled=true and http.profiling_endpoints_enabled=true).
+func c16SplitStore(tag string) (shape string, metricsOn bool) {
+	if strings.HasSuffix(tag, "+m") {
+		return strings.TrimSuffix(tag, "+m"), true
+	}
+	return tag, false
+}
+
 func c16ShapeByName(n string) (c16Shape, bool) {
+	n, _ = c16SplitStore(n)
 	if n == "" {
 		n = "base"
 	}
@@ -343,15 +356,37 @@ func (s *Stack) c16Restore(table string) {
 	_, _ = s.DB.Exec(`INSERT INTO ` + table + ` SELECT * FROM c16_` + table + `_base`)
 }
 
-func c16NewFix(c *Ctx, sh c16Shape) (*c16Fix, error) {
+// c16MetricsEngine replaces the stack's engine by one wired in the order of cmd/main.go: logging + recovery,
+// metrics.Register (request metrics middleware, NoRoute marker, /metrics), then the routes (with the pprof group).
+// metrics.EnableMetrics() is process-global and cannot be undone: only ever called in a child process.
+func c16MetricsEngine(s *Stack) {
+	server := httpserver.NewHTTPServer(s.Cfg.HTTP, s.Log)
+	server.ApplyConfiguration(metrics.Register)
+	server.ApplyConfiguration(endpoints.SetupRoutes(s.Services, s.Cfg.HTTP))
+	server.ApplyConfiguration(func(e *gin.Engine) { s.Engine = e })
+}
+
+func c16NewFix(c *Ctx, sh c16Shape, metricsOn bool) (*c16Fix, error) {
 	gin.DefaultErrorWriter = io.Discard
 	f := &c16Fix{shape: sh.name, hidx: map[string]int{}, midx: map[string]int{}, admin: config.DefaultAppToken}
 	var err error
-	if f.off, err = NewStack(StackOpts{Dir: c.TmpDir("c16off-" + sh.name), UseAuth: false}); err != nil {
+	if metricsOn {
+		if _, on := metrics.Get(); !on {
+			metrics.EnableMetrics()
+		}
+	}
+	if f.off, err = NewStack(StackOpts{Dir: c.TmpDir("c16off-" + sh.name), UseAuth: false, Profiling: metricsOn}); err != nil {
 		return nil, err
 	}
-	if f.on, err = NewStack(StackOpts{Dir: c.TmpDir("c16on-" + sh.name), UseAuth: true}); err != nil {
+	if f.on, err = NewStack(StackOpts{Dir: c.TmpDir("c16on-" + sh.name), UseAuth: true, Profiling: metricsOn}); err != nil {
 		return nil, err
+	}
+	if metricsOn {
+		c16MetricsEngine(f.off)
+		c16MetricsEngine(f.on)
+		if _, on := metrics.Get(); !on {
+			return nil, fmt.Errorf("metrics did not switch on")
+		}
 	}
 	for _, s := range []*Stack{f.off, f.on} {
 		n, err := c16Build(s, sh)
@@ -598,7 +633,7 @@ func runC16Child(c *Ctx) error {
 	if !ok {
 		return fmt.Errorf("unknown store shape %q", name)
 	}
-	f, err := c16NewFix(c, sh)
+	f, err := c16NewFix(c, sh, len(c.Args) > 1 && c.Args[1] == "metrics")
 	if err != nil {
 		return err
 	}
@@ -623,6 +658,7 @@ func runC16Child(c *Ctx) error {
 
 // c16Child is the parent's handle on one child process.
 type c16Child struct {
+	metrics bool
 	shape   string
 	dir     string
 	cmd     *exec.Cmd
@@ -646,7 +682,11 @@ func (ch *c16Child) start() error {
 		return err
 	}
 	ch.starts++
-	cmd := exec.Command(exe, "c16child", fmt.Sprintf("%s-%d", ch.dir, ch.starts), ch.shape)
+	args := []string{"c16child", fmt.Sprintf("%s-%d", ch.dir, ch.starts), ch.shape}
+	if ch.metrics {
+		args = append(args, "metrics")
+	}
+	cmd := exec.Command(exe, args...)
 	cmd.Env = os.Environ()
 	in, err := cmd.StdinPipe()
 	if err != nil {
@@ -742,16 +782,22 @@ type c16Out struct {
 }
 
 // c16RunStore serves the jobs of one store in order (dangerous ones through the child) and returns what to emit.
-func c16RunStore(c *Ctx, f *c16Fix, jobs []c16Job, childDir string) ([]c16Out, error) {
+// With metricsOn every request goes to a child whose engines have metrics (and profiling) enabled; f is then only used
+// for classification (read-only) and the case line.
+func c16RunStore(c *Ctx, f *c16Fix, jobs []c16Job, childDir string, metricsOn bool) ([]c16Out, error) {
 	outs := make([]c16Out, 0, len(jobs))
-	ch := &c16Child{shape: f.shape, dir: childDir}
+	ch := &c16Child{shape: f.shape, dir: childDir, metrics: metricsOn}
+	tag := f.shape
+	if metricsOn {
+		tag += "+m"
+	}
 	defer ch.kill()
 	var tChild, tLocal, tClass time.Duration
 	defer func() {
-		fmt.Fprintf(os.Stderr, "c16: store %s: classify %.1fs, in-process %.1fs, child %.1fs (%d child starts)\n", f.shape, tClass.Seconds(), tLocal.Seconds(), tChild.Seconds(), ch.starts)
+		fmt.Fprintf(os.Stderr, "c16: store %s: classify %.1fs, in-process %.1fs, child %.1fs (%d child starts)\n", tag, tClass.Seconds(), tLocal.Seconds(), tChild.Seconds(), ch.starts)
 	}()
 	for _, j := range jobs {
-		j.r.Store = f.shape
+		j.r.Store = tag
 		tc := time.Now()
 		cl, route, skip := f.classify(j.r)
 		tClass += time.Since(tc)
@@ -759,12 +805,15 @@ func c16RunStore(c *Ctx, f *c16Fix, jobs []c16Job, childDir string) ([]c16Out, e
 			outs = append(outs, c16Out{skip: skip})
 			continue
 		}
+		if metricsOn {
+			cl += " cfg=metrics" // informational: the model's answer does not depend on it
+		}
 		if j.want != "" && !strings.HasPrefix(cl, j.want) {
 			// sanity of the glue: the classifier must map a generated request back to the class it was generated for
 			return nil, fmt.Errorf("classifier disagrees with the generator: wanted prefix %q got %q for %s", j.want, cl, j.r.encode())
 		}
 		var obs string
-		danger := c16Dangerous(cl, j.r)
+		danger := metricsOn || c16Dangerous(cl, j.r)
 		tq := time.Now()
 		if danger {
 			if ch.crashes >= 8 {
@@ -855,12 +904,13 @@ func runC16(c *Ctx) error {
 		if !ok {
 			return fmt.Errorf("--only: unknown store shape %q", r.Store)
 		}
-		f, err := c16NewFix(c, sh)
+		_, mOn := c16SplitStore(r.Store)
+		f, err := c16NewFix(c, sh, false)
 		if err != nil {
 			return err
 		}
 		defer f.close()
-		outs, err := c16RunStore(c, f, []c16Job{{r: r, origin: "replay"}}, c.TmpDir("c16child-"+sh.name))
+		outs, err := c16RunStore(c, f, []c16Job{{r: r, origin: "replay"}}, c.TmpDir("c16child-"+sh.name), mOn)
 		if err != nil {
 			return err
 		}
@@ -891,7 +941,7 @@ func runC16(c *Ctx) error {
 		if _, ok := c16ShapeByName(r.Store); !ok {
 			return fmt.Errorf("corpus line %q: unknown store shape", line)
 		}
-		corpus[r.Store] = append(corpus[r.Store], c16Job{r: r, origin: "corpus"})
+		corpus[r.Store] = append(corpus[r.Store], c16Job{r: r, origin: "corpus"})  // key: "<shape>" or "<shape>+m"
 	}
 	{
 		var wg sync.WaitGroup
@@ -900,7 +950,7 @@ func runC16(c *Ctx) error {
 			wg.Add(1)
 			go func(si int) {
 				defer wg.Done()
-				fixes[si], ferrs[si] = c16NewFix(c, shapes[si])
+				fixes[si], ferrs[si] = c16NewFix(c, shapes[si], false)
 			}(si)
 		}
 		wg.Wait()
@@ -933,26 +983,61 @@ func runC16(c *Ctx) error {
 			jobs[si] = append(jobs[si], c16Job{r: r, origin: "mutated"})
 		}
 	}
-	results := make([][]c16Out, len(shapes))
-	errs := make([]error, len(shapes))
-	took := make([]time.Duration, len(shapes))
+	// the metrics + profiling configuration: the whole grammar of the store once more (own copies of the requests),
+	// on the base store in the quick tier, on every store in the thorough tier
+	type worker struct {
+		si      int
+		metrics bool
+		jobs    []c16Job
+	}
+	workers := []worker{}
+	for si := range shapes {
+		workers = append(workers, worker{si: si, jobs: jobs[si]})
+	}
+	for si, sh := range shapes {
+		if sh.name == "base" || c.Thorough() {
+			mj := append([]c16Job{}, corpus[sh.name+"+m"]...)
+			for _, j := range jobs[si] {
+				if j.origin == "corpus" {
+					continue
+				}
+				r := *j.r
+				mj = append(mj, c16Job{r: &r, origin: j.origin, want: j.want})
+			}
+			workers = append(workers, worker{si: si, metrics: true, jobs: mj})
+		}
+	}
+	results := make([][]c16Out, len(workers))
+	errs := make([]error, len(workers))
+	took := make([]time.Duration, len(workers))
 	tGen := time.Since(tStart)
 	var wg sync.WaitGroup
-	for si := range shapes {
+	for wi := range workers {
 		wg.Add(1)
-		go func(si int) {
+		go func(wi int) {
 			defer wg.Done()
+			w := workers[wi]
 			t0 := time.Now()
-			results[si], errs[si] = c16RunStore(c, fixes[si], jobs[si], c.Out+"/tmp/c16child-"+shapes[si].name)
-			took[si] = time.Since(t0)
-		}(si)
+			dir := c.Out + "/tmp/c16child-" + shapes[w.si].name
+			if w.metrics {
+				dir += "-m"
+			}
+			results[wi], errs[wi] = c16RunStore(c, fixes[w.si], w.jobs, dir, w.metrics)
+			took[wi] = time.Since(t0)
+		}(wi)
 	}
 	wg.Wait()
-	for si := range shapes {
-		if errs[si] != nil {
-			return errs[si]
+	for wi, w := range workers {
+		if errs[wi] != nil {
+			return errs[wi]
 		}
-		emitAll(results[si])
+		emitAll(results[wi])
+		if w.metrics {
+			c.Count("config:metrics+profiling-enabled-stores")
+			fmt.Fprintf(os.Stderr, "c16: store %s+m: %d jobs served in %.1fs\n", shapes[w.si].name, len(w.jobs), took[wi].Seconds())
+		}
+	}
+	for si := range shapes {
 		c.Meta("store:"+shapes[si].name, fmt.Sprintf("%s; %s; rows written directly because Chains.Add of the tree under test failed or labelled them differently: %d", shapes[si].what, fixes[si].env, fixes[si].repairs))
 		fmt.Fprintf(os.Stderr, "c16: store %s: %d jobs served in %.1fs (fixtures+generation %.1fs)\n", shapes[si].name, len(jobs[si]), took[si].Seconds(), tGen.Seconds())
 	}
